@@ -22,6 +22,14 @@ func (e *Engine) lookupIntrinsic(fn *ssa.Function) (Intrinsic, bool) {
 			return in, true
 		}
 	}
+	// Prometheus metric updates of neo-go (functions declared in a prometheus.go file that
+	// return nothing) are no-ops: metrics are not part of any property and their
+	// collectors are not initialised by the executor.
+	if fn.Pkg != nil && fn.Signature.Results().Len() == 0 && fn.Parent() == nil && strings.HasPrefix(fn.Pkg.Pkg.Path(), modPath) && fn.Prog != nil {
+		if pos := fn.Prog.Fset.Position(fn.Pos()); strings.HasSuffix(pos.Filename, "/prometheus.go") {
+			return func(w *Worker, g *G, fr *Frame, fn *ssa.Function, args []Value) (Value, ctl) { return nil, ctlNext }, true
+		}
+	}
 	n := fn.Name()
 	if strings.HasPrefix(n, "vf") && fn.Pkg != nil && fn.Parent() == nil && fn.Signature.Recv() == nil {
 		if in, ok := e.intrinsics["vf:"+n]; ok {
